@@ -261,6 +261,8 @@ enum Unit {
     Fan { w: usize },
     /// 300 simultaneously live gradients
     Huge,
+    /// root-only programs in which the op's operands are used again afterwards
+    Reuse(B),
     Transform,
 }
 
@@ -300,6 +302,9 @@ fn units(tier: Tier) -> Vec<Unit> {
         v.push(Unit::Fan { w });
     }
     v.push(Unit::Huge);
+    for b in [B::Add, B::Sub, B::Mul, B::Div, B::Atan, B::Min, B::Max, B::Mod, B::And, B::Or, B::Compare] {
+        v.push(Unit::Reuse(b));
+    }
     v
 }
 
@@ -425,6 +430,80 @@ fn eval_dual(flat: &Flat, inputs: &[D64]) -> Option<Vec<Option<D64>>> {
         out.push(r);
     }
     Some(out)
+}
+
+/// Root-only programs (the register allocation a user gets: exporting every
+/// node keeps all values live and changes which registers are shared): the
+/// gradient of the single output vs the f64 dual-number derivative of the
+/// whole program; the value must equal the float-slice evaluator's
+fn root_prog<F: Backend>(cx: &mut Cx, p: &Prog, pts: &[Vec<f32>]) {
+    let mut ctx = Context::new();
+    let roots = p.build(&mut ctx);
+    let flat = Flat::from_ctx(&ctx, &roots);
+    let Ok(f) = evalkit::build::<F>(&ctx, &roots) else { return };
+    let desc = || json!({"program": p.describe(), "context_graph": flat.describe(), "backend": F::NAME, "all_nodes_exported": false});
+    let n = pts.len();
+    let mut cols = vec![vec![Grad::new(0.0, 0.0, 0.0, 0.0); n]; f.vars().len()];
+    let mut pcols = vec![vec![0.0f32; n]; f.vars().len()];
+    let mut slot_of = vec![usize::MAX; 3];
+    for (v, i) in f.vars().iter() {
+        if let Some(pp) = flat.vars.iter().position(|u| *u == v) {
+            for (l, pt) in pts.iter().enumerate() {
+                let x = pt[pp];
+                cols[i][l] = match v {
+                    Var::X => Grad::new(x, 1.0, 0.0, 0.0),
+                    Var::Y => Grad::new(x, 0.0, 1.0, 0.0),
+                    Var::Z => Grad::new(x, 0.0, 0.0, 1.0),
+                    _ => Grad::new(x, 0.0, 0.0, 0.0),
+                };
+                pcols[i][l] = x;
+            }
+            match v {
+                Var::X => slot_of[0] = pp,
+                Var::Y => slot_of[1] = pp,
+                Var::Z => slot_of[2] = pp,
+                _ => (),
+            }
+        }
+    }
+    cx.add("evals", 2);
+    let out = match evalkit::eval_grad_slice(&f, &cols) {
+        Ok(o) => o,
+        Err(e) => {
+            cx.crash(format!("{}-grad-slice crash {}", F::NAME, panic_site(&e)), desc(), e);
+            return;
+        }
+    };
+    let Ok(vals) = evalkit::eval_float_slice(&f, &pcols) else { return };
+    for (l, pt) in pts.iter().enumerate() {
+        let g = out[0][l];
+        if !value_eq(g.v, vals[0][l]) {
+            cx.violation(
+                format!("{}-grad-slice value of a root-only program differs from the float-slice value", F::NAME),
+                desc(),
+                format!("at {pt:?}: {:?} vs {:?}", g.v, vals[0][l]),
+            );
+            return;
+        }
+        // reference: forward-mode duals through the whole program
+        let vars: Vec<D64> = (0..3)
+            .map(|a| {
+                let mut d = D64::constant(if slot_of[a] != usize::MAX { pt[slot_of[a]] as f64 } else { 0.0 });
+                d.d[a] = 1.0;
+                d.m[a] = 1.0;
+                d
+            })
+            .collect();
+        let Some(r) = crate::c07::eval_dual(p, &vars) else {
+            cx.add("points_skipped_near_non_differentiable_locus", 1);
+            continue;
+        };
+        cx.add("nontrivial", 1);
+        if let Err(m) = grad_ok(&g, &r) {
+            cx.violation(format!("{}-grad-slice gradient of a root-only program differs from the dual-number derivative", F::NAME), desc(), format!("at {pt:?}: {m}"));
+            return;
+        }
+    }
 }
 
 /// (b) + (c): composition with the local chain-rule obligation, and the
@@ -747,7 +826,7 @@ impl Check for C05 {
     }
     fn meta(&self, tier: Tier) -> Meta {
         Meta {
-            rule: "case = one grad-slice call; (a) every opcode x operand form {reg, reg/reg, same-reg, reg/imm, imm/reg} x operand values from a 20-value finite alphabet (squared for binary ops) x seed gradients {e_x,e_y,e_z,(2,-3,0.5),0,(1,1,1)} per operand, cut into slices of lengths 1..=9, VM and JIT; (b) fan families of width 1..16 (thorough 24) keeping w gradients live across atan2 / mod / sin / exp call-outs, and one huge program with 300 simultaneously live gradients; every DAG up to the node bound over 20 differentiable ops with all nodes exported: local chain-rule obligation at every node (reference dual applied to the evaluator's own operand gradients) on a 36-point grid; (c) Context::deriv of the last node w.r.t. X and Y evaluated with ref32 vs the f64 dual-number derivative of the graph; (d) Shape grad evaluation with 7 matrices incl. projective; oracle: f64 forward-mode duals with a cancellation-aware tolerance 1e-4*max(1,|ref|,sum|terms|); value must equal the float-slice evaluator's; points within 1e-3 of an op's non-differentiable locus are skipped (counted); non-trivial = a derivative was actually compared".into(),
+            rule: "case = one grad-slice call; (a) every opcode x operand form {reg, reg/reg, same-reg, reg/imm, imm/reg} x operand values from a 20-value finite alphabet (squared for binary ops) x seed gradients {e_x,e_y,e_z,(2,-3,0.5),0,(1,1,1)} per operand, cut into slices of lengths 1..=9, VM and JIT; (b) fan families of width 1..16 (thorough 24) keeping w gradients live across atan2 / mod / sin / exp call-outs, and one huge program with 300 simultaneously live gradients; for 11 binary opcodes 11 ROOT-ONLY programs each in which the op's operands are used again afterwards (register-sharing patterns), gradient of the root vs the f64 dual-number derivative of the whole program on a 36-point grid; every DAG up to the node bound over 20 differentiable ops with all nodes exported: local chain-rule obligation at every node (reference dual applied to the evaluator's own operand gradients) on a 36-point grid; (c) Context::deriv of the last node w.r.t. X and Y evaluated with ref32 vs the f64 dual-number derivative of the graph; (d) Shape grad evaluation with 7 matrices incl. projective; oracle: f64 forward-mode duals with a cancellation-aware tolerance 1e-4*max(1,|ref|,sum|terms|); value must equal the float-slice evaluator's; points within 1e-3 of an op's non-differentiable locus are skipped (counted); non-trivial = a derivative was actually compared".into(),
             bounds: match tier {
                 Tier::Quick => "DAG nodes <= 2".into(),
                 Tier::Thorough => "DAG nodes <= 3".into(),
@@ -805,6 +884,20 @@ impl Check for C05 {
                 for p in &progs {
                     op_level::<VmFunction>(cx, &mut sub, p, &format!("{op:?}"), 2);
                     op_level::<JitFunction>(cx, &mut sub, p, &format!("{op:?}"), 2);
+                }
+            }
+            Unit::Reuse(b) => {
+                let g = [-2.25f32, -0.8, 0.3, 0.75, 1.6, 3.1];
+                let pts: Vec<Vec<f32>> = g.iter().flat_map(|a| g.iter().map(move |c| vec![*a, *c])).collect();
+                for p in crate::prog::reuse_patterns(b) {
+                    let s = sub;
+                    sub += 1;
+                    if !cx.case(s) {
+                        continue;
+                    }
+                    cx.add("cases", 1);
+                    root_prog::<VmFunction>(cx, &p, &pts);
+                    root_prog::<JitFunction>(cx, &p, &pts);
                 }
             }
             Unit::Huge => {
